@@ -148,7 +148,7 @@ pub fn boost(mut w: Vec<(Kind, u32)>, kinds: &[Kind], weight: u32) -> Vec<(Kind,
 }
 
 /// (shape, N, M) combinations the executor is monomorphised for.
-pub const MENU: [(Shape, usize, usize); 38] = [
+pub const MENU: [(Shape, usize, usize); 39] = [
     (Shape::Small, 0, 0),
     (Shape::Small, 0, 2),
     (Shape::Small, 1, 1),
@@ -187,6 +187,7 @@ pub const MENU: [(Shape, usize, usize); 38] = [
     (Shape::Boxed, 16, 2),
     (Shape::Large, 1, 4),
     (Shape::ZstVal, 0, 1),
+    (Shape::Aligned, 3, 2),
 ];
 
 pub struct G<'a> {
